@@ -34,7 +34,8 @@ chk = Check('C18', 'exploration',
             'model round trips DM/JSON/XML x 2 unit settings; SDVPN: systems (anisotropic edge / mixed / rotated '
             'm,n axes / orthorhombic K with K13 != 0 / isotropic screw / hexagonal basal) x profiles (arctan family, '
             'generic mixed, node-valued) x x-grids (N x dx x offset), and inside every case the full product '
-            'tau x alpha x beta x (fullstress, cdiffelastic, cdiffsurface, cdiffstress); bilinear/shift clauses on '
+            'tau (2) x alpha (quick: default / [0.1,0.05] / scalar; thorough: + [0.0], [0.1]) x beta (3) x all 16 (fullstress, '
+            'cdiffelastic, cdiffsurface, cdiffstress); bilinear/shift clauses on '
             'profile pairs; solve() on capped minimisations; half-width on long grids.  evaluations = individual '
             'oracle comparisons; non-trivial = gamma queries that are off-node or need a non-zero period wrap, '
             'conversions of >= 2 positions, and energy-term comparisons whose oracle value is non-zero')
@@ -819,6 +820,8 @@ def o_misfit(o, x, d):
 TAUS = [None,
         [[0.0, 0.011, 0.0], [0.011, -0.004, 0.007], [0.0, 0.007, 0.0]]]
 ALPHAS = [None, [0.0], [0.1], [0.1, 0.05], 0.07]
+# quick tier: default, two-coefficient and scalar alpha; thorough: all five
+ALPHA_IDX = list(range(len(ALPHAS))) if THOROUGH else [0, 3, 4]
 BETAS = [None,
          [[0.05, 0, 0], [0, 0.02, 0], [0, 0, 0.08]],
          [[0.05, 0.01, -0.02], [0.01, 0.02, 0.015], [-0.02, 0.015, 0.08]]]
@@ -932,7 +935,7 @@ def terms(case):
             fails.append(Fail(key='misfit-node-profile', msg='misfit energy of a node-valued profile is not dx * sum of node energies',
                               observed=float(r), expected=exp))
     known = False
-    for ti, ai, bi in itertools.product(range(len(TAUS)), range(len(ALPHAS)), range(len(BETAS))):
+    for ti, ai, bi in itertools.product(range(len(TAUS)), ALPHA_IDX, range(len(BETAS))):
         tau = TAUS[ti] or ZERO33
         beta = BETAS[bi] or ZERO33
         al = alpha_tuple(ai)
